@@ -73,3 +73,35 @@ def c11_shortcut(R):
                 construct=f"{name}: concrete answer without consulting the constraint set",
             )
     R.need(n >= 5, f"only {n} concrete shortcuts found")
+
+
+Z3B = "claripy/backends/backend_z3.py"
+
+
+@rule(
+    "C26.modelfold",
+    props=("C26", "C03"),
+    floor=1,
+    family="PAIR",
+    desc="BackendZ3._primitive_from_model folds (z3.simplify) a model term before handing it to the value reader, at least "
+    "on the path where the term is not a value yet: Z3 leaves some terms of a completed model unevaluated",
+)
+def c26_modelfold(R):
+    tree = R.tree
+    m = tree.mod(Z3B)
+    fn = tree.func_inlined(Z3B, "BackendZ3._primitive_from_model", exclude=("_abstract_to_primitive",))
+    evals = [c for c in walk_no_nested(fn) if isinstance(c, ast.Call) and isinstance(c.func, ast.Attribute) and c.func.attr == "eval"]
+    reads = [c for c in walk_no_nested(fn) if isinstance(c, ast.Call) and isinstance(c.func, ast.Attribute) and c.func.attr == "_abstract_to_primitive"]
+    R.need(evals and reads, "_primitive_from_model no longer evaluates the model and reads the value")
+    folds = [c for c in walk_no_nested(fn) if isinstance(c, ast.Call) and (util.dotted(c.func) if hasattr(util, "dotted") else "") in ("z3.simplify",) or (isinstance(c, ast.Call) and ast.unparse(c.func) == "z3.simplify")]
+    ok = any(getattr(e, "lineno", 0) <= getattr(f, "lineno", 0) <= getattr(r, "lineno", 0) for e in evals for f in folds for r in reads)
+    R.check(
+        ok,
+        m,
+        fn,
+        "model term folded before it is read",
+        "_primitive_from_model reads the term model.eval() returned without folding it: for str.indexof with a start position "
+        "beyond any string Z3 returns an If over constants, and eval(StrIndexOf(x, t, 2**64 - 1)) raised 'unknown decl op "
+        "Z3_OP_INT2BV' although the expression folds to -1 concretely",
+        construct="_primitive_from_model: z3.simplify between model.eval and the value reader",
+    )
